@@ -56,7 +56,8 @@ def h_chain_uf(ctx):
     gridders.reset()
     nsteps, ncomp, shape = cfg["nsteps"], cfg.get("ncomp", 1), tuple(cfg["shape"])
     steps = [UFGridder(ident=k + 1, ncomp=ncomp) for k in range(nsteps)]
-    chain = vd.Chain([("s%d" % k, st) for k, st in enumerate(steps)])
+    # step names are labels only; with same_names every step carries the same one
+    chain = vd.Chain([("step" if cfg.get("same_names") else "s%d" % k, st) for k, st in enumerate(steps)])
     qe, qn = ctx.reals("qe", 2), ctx.reals("qn", 2)
     for rnd, tag in enumerate(["A", "B"][: cfg.get("rounds", 1)]):
         fitno = rnd + 1
@@ -381,6 +382,7 @@ def _cfg_chain(tier, seed):
         {"nsteps": 2, "shape": (2, 2), "rounds": 2},
         {"nsteps": 3, "shape": (3,), "weighted": True, "ncomp": 2},
         {"nsteps": 1, "shape": (2,)},
+        {"nsteps": 3, "shape": (2,), "same_names": True},
     ]
     if tier == "quick":
         return q
